@@ -27,7 +27,7 @@ def main():
             "add_only": True,
         },
         "engines": [{"name": "symgo", "path": "engine/", "serves_properties": sorted(checks.CHECKS),
-                     "kind_free_text": "KLEE-style path-forking symbolic executor over golang.org/x/tools/go/ssa (v0.29.0) written for this task; SMT-LIB2 to z3 4.8.12 (incremental pipe) with z3 5.1.0 as fallback and cross-check; environment models listed per check in the evidence"}],
+                     "kind_free_text": "KLEE-style path-forking symbolic executor over golang.org/x/tools/go/ssa (v0.29.0) written for this task; SMT-LIB2 to z3 4.8.12 or z3 5.1.0 (incremental pipe, per entry) with z3 5.1.0 in a fresh context as fallback and cvc5 1.0 as cross-check solver on a sample of assertion queries; counterexamples and sample passing paths are replayed natively; environment models listed per check in the evidence"}],
         "checks": [],
         "not_applicable": [],
         "notes": "Every check: ./check <ID> --tier quick|thorough. Exit 0 held / only known findings, 1 new violation (VIOLATION line, replay dir), 2 inconclusive. known_findings.json lists genuine defects (open = KNOWN-FINDING lines, fixed = repaired by a fix: commit in /repo).",
